@@ -11,6 +11,7 @@ import (
 	"verif/bucket"
 	"verif/inst"
 	"verif/lmdbx"
+	"verif/lsx"
 	"verif/rng"
 	"verif/runner"
 	"verif/sched"
@@ -22,6 +23,9 @@ type c08SyncParams struct {
 	Seed   uint64 `json:"seed"`
 	Kind   string `json:"kind"`  // what is wrong inside the blob
 	Place  string `json:"place"` // newest | only
+	// Own: the corrupt blob is the newest snapshot of the starting instance ITSELF (left behind by its previous run);
+	// its older valid snapshot must still be merged and the instance must go on uploading
+	Own bool `json:"own,omitempty"`
 }
 
 var lazyKinds = []string{"entry-bad-length", "entry-wrong-wiretype", "entry-truncated-fixed64", "entry-key-600-bytes", "entry-empty-key", "structural"}
@@ -38,6 +42,12 @@ func c08SyncCases(tier string, r *rng.R) []runner.Case {
 				for _, place := range []string{"newest", "only"} {
 					p := c08SyncParams{Native: native, Seed: r.U64(), Kind: kind, Place: place}
 					cs = append(cs, runner.MkCase("sync", fmt.Sprintf("%d-native=%v-%s-%s", k, native, kind, place), p))
+				}
+				if kind == "entry-bad-length" || kind == "structural" || kind == "entry-empty-key" {
+					for _, place := range []string{"newest", "only"} {
+						p := c08SyncParams{Native: native, Seed: r.U64(), Kind: kind, Place: place, Own: true}
+						cs = append(cs, runner.MkCase("sync-own", fmt.Sprintf("%d-native=%v-%s-%s", k, native, kind, place), p))
+					}
 				}
 			}
 		}
@@ -124,21 +134,33 @@ func runC08Sync(c runner.Case, env *runner.Env) (res runner.Result) {
 	}
 	// instance r1: [good] + corrupt newest, or only the corrupt one; instance r2: good
 	var r1good string
+	r1 := "r1"
+	if p.Own {
+		r1 = "a"
+	}
 	if p.Place == "newest" {
-		n, d := good("r1", 1, "from-r1")
+		n, d := good(r1, 1, "from-r1")
 		b.Put(n, d)
 		r1good = n
 	}
 	badTS := base.Add(10 * time.Second)
-	badName := snapshot.Name("db", "r1", "GX", badTS)
-	badBlob := lazyCorruptBlob(r, p.Kind, badTS, "r1")
+	badName := snapshot.Name("db", r1, "GX", badTS)
+	badBlob := lazyCorruptBlob(r, p.Kind, badTS, r1)
 	b.Put(badName, badBlob)
 	r2name, r2data := good("r2", 2, "from-r2")
 	b.Put(r2name, r2data)
 	_, loadErr := snapshot.LoadData(badBlob)
 	res.Add("corrupt_blob_passes_LoadData", fmt.Sprint(loadErr == nil))
 
-	a, err := inst.New(env.Dir("c08sync"), b, "db", "a", inst.Opt{Native: p.Native})
+	opt := inst.Opt{Native: p.Native}
+	if p.Own {
+		// a valid configuration shape: retries are faster than the storage poll (1:25 here), so the downloader's
+		// re-check after the corrupt blob always comes before the receiver's next listing
+		conf := lsx.FastConfig("a")
+		conf.StoragePollInterval = 25 * time.Millisecond
+		opt.Conf = &conf
+	}
+	a, err := inst.New(env.Dir("c08sync"), b, "db", "a", opt)
 	if err != nil {
 		res.Verdict, res.Msg = runner.Inconclusive, err.Error()
 		return
@@ -182,6 +204,43 @@ func runC08Sync(c runner.Case, env *runner.Env) (res runner.Result) {
 	}
 	if r1good != "" && !s.Loaded("a", r1good, 0) {
 		res.Violate("older-decodable-snapshot-not-merged", "the newest decodable snapshot of the instance with the corrupt blob was not merged", wit)
+	}
+	if p.Own {
+		// the instance has local data and a local change: within the bound it must have published a snapshot of its
+		// own that is newer than the corrupt one and carries the local key
+		AppPutPlain(a, "local-2", "v2")
+		from := s.Len()
+		okUp := false
+		for time.Now().Before(deadline) && s.Count("a", "loop.end", from) < 300 && !okUp {
+			for _, n := range b.Names() {
+				if ni, err := snapshot.ParseName(n); err == nil && ni.InstanceID == "a" && n > badName {
+					if data, ok := b.Get(n); ok {
+						if ws, err := wire.DecodeBlob(data); err == nil {
+							for _, d := range ws.DBIs {
+								for _, e := range d.Entries {
+									if string(e.Key) == "local-2" {
+										okUp = true
+									}
+								}
+							}
+						}
+					}
+				}
+			}
+			time.Sleep(300 * time.Microsecond)
+		}
+		if !okUp {
+			if _, _, fin := loop.Result(); fin {
+				err, crashed, _ := loop.Result()
+				res.Violate("corrupt-blob-stops-sync", fmt.Sprintf("Sync returned (err=%v, crashed=%v)", err, crashed), wit)
+			} else if s.Count("a", "loop.end", from) >= 300 {
+				res.Violate("own-corrupt-blob-blocks-uploads", "the instance's own newest snapshot is corrupt: 300 loop iterations after a local change it has still not uploaded a snapshot carrying it", wit)
+			} else {
+				res.Verdict, res.Msg = runner.Inconclusive, "watchdog"
+			}
+			return
+		}
+		res.Count("own_corrupt_scenarios_with_upload", 1)
 	}
 	// the corrupt blob is downloaded at most once... unless it is valid for LoadData and fails later (then it must still not be retried forever)
 	loads := 0
